@@ -59,7 +59,7 @@ Inductive case :=
 (* the real supervisor driven step by step: the configuration at the start, the view after init, the events, after every
    event the view (None = the implementation was already further on when the event was recorded), and the state file
    (name, position) after the i-th event for every persist *)
-| KSup (c0 : list (nat * nat)) (view0 : sview) (evs : list sev) (views : list (option sview)) (stored_views : list (nat * list (nat * nat))).
+| KSup (c0 : list (nat * nat)) (nosink0 : list nat) (view0 : sview) (evs : list sev) (views : list (option sview)) (stored_views : list (nat * list (nat * nat))).
 
 Definition check (c : case) : bool :=
   match c with
@@ -67,8 +67,8 @@ Definition check (c : case) : bool :=
   | KSink q0 dials batches oks conns =>
       let '(l, oks') := sink_calls (mkLg (Some q0) dials [[]]) batches in
       list_eqb Bool.eqb oks' oks && list_eqb (list_eqb Z.eqb) (rev (l_recv l)) conns
-  | KSup c0 view0 evs views sv =>
-      view_eqb (view_of (sup0 c0)) view0 && sup_check (sup0 c0) evs views 0 sv
+  | KSup c0 ns0 view0 evs views sv =>
+      view_eqb (view_of (sup0_f ns0 c0)) view0 && sup_check (sup0_f ns0 c0) evs views 0 sv
   end.
 
 Definition mismatches (l : list case) : list nat := mismatches_of check l.
